@@ -699,8 +699,11 @@ func eCaseWith(r *rig, j *eJSON, observe func(kind int, scheme, urlhost string) 
 		if !r.keeps(q) {
 			continue
 		}
-		scheme, tgtKind, tscheme := schemesOf(q.Kind, inMITM())
+		scheme, _, _ := schemesOf(q.Kind, inMITM())
 		o := observe(q.Kind, scheme, q.URLHost)
+		// what the proxy makes of an origin-form request depends on whether it arrived inside a MITM'd TLS
+		// session: taken from the client's own record of how it sent the request
+		_, tgtKind, tscheme := schemesOf(q.Kind, o.InTLS)
 		pacRes, directRes, isLH, hn := r.oracles(tgtKind, tscheme, q.URLHost, o.Pac)
 		parts = append(parts, fmt.Sprintf("(%s, tgt %d %s %s, %s)", coqCfgd(r.desc, pacRes, directRes, isLH, hn),
 			tgtKind, cs(tscheme), cs(q.URLHost), coqObs(o, hn, tgtKind)))
